@@ -120,4 +120,12 @@ PROPS = {
         "trusted_base": BASE_TRUST + ["header and format tables regenerated from /repo every run; decode byte consumption per format is compared by check C06, encode acceptance per size by check C10"],
         "assumptions": ["dithering independence is established on the implementation (oracle), not proved: the per-channel quantisers are f32 code the model does not cover"],
     },
+    "C17": {
+        "kernel_sample": 100,
+        "rule": "model comparison: 60 (thorough 600) parallel encodes of BC formats at sizes that split into 2..60 fragments under rayon pools of 1..8 threads: the sorted progress increments reported by the worker jobs (recovered as round(v*(h+1))) equal the sorted fragment heights of the C14 geometry model; "
+                "implementation-only oracles on Encoder::write_surface_with_progress for 12 formats (one per encoder family) x {no mips, generated mips} x {sequential, parallel with 3/4/16 threads and hook-imposed completion orders}: values in [0,1], non-decreasing, 1.0 last iff Ok; "
+                "cancellation before the call (Cancelled, nothing written, no report) and at every report index k (all k for <= 12 reports, else a sample): Cancelled whenever the k-th value is below 1.0; distinct = distinct case lines",
+        "trusted_base": BASE_TRUST + ["real schedules, the mutex and SeqCst visibility of the cancellation flag are runtime behaviour: exercised, not proved", "f32 rounding of the reported values is outside the model (exact rationals)"],
+        "assumptions": ["a cancellation requested at a report that already says 100% has no specified outcome (the documentation allows several reports of 100%): excluded from the oracle"],
+    },
 }
